@@ -120,6 +120,8 @@ pub struct Run {
     pub reported_rel: Vec<(String, String)>,
     /// every item in order: (is Ok, tree-relative path, is a link cycle error, reported depth)
     pub sequence: Vec<(bool, String, bool, usize)>,
+    /// error items whose conversion to `io::Error` no longer names the offending path
+    pub io_conversion_lost: Vec<String>,
 }
 
 struct Ctx<'a> {
@@ -179,7 +181,16 @@ where
                 log.errors += 1;
                 let t = err.path().map(|p| tree_rel(ctx, p)).unwrap_or_else(|| "<no path>".to_string());
                 let is_loop = format!("{}", err).contains("cycle");
-                log.sequence.push((false, t, is_loop, err.depth()));
+                log.sequence.push((false, t.clone(), is_loop, err.depth()));
+                // the error item converted to an `io::Error` (as `?` does in a function returning
+                // io::Result) still names the offending path
+                if let Some(p) = err.path().map(|p| p.to_path_buf()) {
+                    let io: std::io::Error = err.into();
+                    let name = p.file_name().map(|n| n.to_string_lossy().to_string()).unwrap_or_default();
+                    if !name.is_empty() && !io.to_string().contains(&name) {
+                        log.io_conversion_lost.push(format!("{} -> {:?}", t, io.to_string()));
+                    }
+                }
             },
         }
     }
@@ -1095,7 +1106,13 @@ pub fn c13_c16(tier: Tier, which: &'static str) -> i32 {
                                 });
                             }
                             // the same stack consumed directly (outermost layer driven by `next`)
-                            if let Ok(bare) = execute_bare(&place, base, perm, h, link) {
+                            // (thorough tier: histories with at most one deviation - the deeper
+                            // histories are what makes that tier long, and the direct route differs from
+                            // the logged one in the outermost layer only)
+                            if tier == Tier::Thorough && h.len() > 1 {
+                                // not consumed directly
+                            }
+                            else if let Ok(bare) = execute_bare(&place, base, perm, h, link) {
                                 bump(&mut c, "walks", 1);
                                 bump(&mut c, "stacks_consumed_directly", 1);
                                 if let Some(diff) = bare_difference(&run, &bare) {
@@ -1275,13 +1292,15 @@ pub fn c03(tier: Tier) -> i32 {
     // nesting), installed as text; every fifth one also as a compiled and as an owned glob
     {
         let opts = crate::space::SpaceOpts {
-            shape: tier.pick(3, 4),
+            // (measured: with shapes of size 4 and the position family at depth 2 the thorough tier did
+            // not finish in 90 minutes; the thorough tier substitutes on more shapes instead)
+            shape: 3,
             subst_single: tier.pick(2, 3),
             subst_pairs: 0,
             reduced: 0,
             corpus: true,
             letter_canonical: true,
-            position: tier.pick(1, 2),
+            position: 1,
             position_full: tier.pick(0, 1),
             adjacent: true,
         };
